@@ -11,9 +11,13 @@ static bool pass( int n, std::string& err )
 {
     bluetoe::details::ring< S, int > r;
     std::vector< int > got;
-    std::thread prod( [&]{ for ( int i = 0; i != n; ) { if ( r.try_push( i ) ) ++i; else std::this_thread::yield(); } } );
-    std::thread cons( [&]{ int v; for ( int i = 0; i != n; ) { if ( r.try_pop( v ) ) { got.push_back( v ); ++i; } else std::this_thread::yield(); } } );
+    // horizon: a lost element would make the consumer (a duplicated one the producer) wait for ever
+    const double give_up = mc::now_s() + 20.0;
+    std::atomic< bool > stuck( false );
+    std::thread prod( [&]{ for ( int i = 0; i != n && !stuck; ) { if ( r.try_push( i ) ) ++i; else { std::this_thread::yield(); if ( mc::now_s() > give_up ) stuck = true; } } } );
+    std::thread cons( [&]{ int v; for ( int i = 0; i != n && !stuck; ) { if ( r.try_pop( v ) ) { got.push_back( v ); ++i; } else { std::this_thread::yield(); if ( mc::now_s() > give_up ) stuck = true; } } } );
     prod.join(); cons.join();
+    if ( stuck ) { err = mc::fmt( "capacity %zu: no progress for 20 s after %zu of %d elements (element lost or ring stuck)", S, got.size(), n ); return false; }
     for ( int i = 0; i != n; ++i ) if ( got[ i ] != i ) { err = mc::fmt( "capacity %zu: element %d popped as %d", S, i, got[ i ] ); return false; }
     return true;
 }
@@ -29,7 +33,7 @@ int main( int argc, char** argv )
     {
         bool ok = pass< 1 >( n, err ) && pass< 2 >( n, err ) && pass< 7 >( n, err );
         rep.evaluations += 3; rep.transitions += 6ull * n; rep.states += 3; rep.traces_validated += 3;
-        if ( !ok ) { rep.fail( "free-running:fifo-order", err, { "free-running" } ); break; }
+        if ( !ok ) { rep.fail( err.find( "no progress" ) != std::string::npos ? "free-running:no-progress" : "free-running:fifo-order", err, { "free-running" } ); break; }
     }
     rep.cls( "free-running-fifo-intact" ); rep.cls( "tsan-no-report" );
     rep.sample( mc::fmt( "3 rounds x capacities {1,2,7} x %d elements through two std::threads under -fsanitize=thread", n ) );
